@@ -1,27 +1,262 @@
 package main
 
-// Channels, select, and the two-thread kernel (vPar).
+// Channels and select for a single-threaded executor. A goroutine that would block forever ends
+// the path ("blocked"); being blocked while holding a mutex is an obligation failure. Havoc
+// channels (harness intrinsic vHavocChan) model asynchronous events such as context cancellation:
+// every observation forks into "closed from now on" and "not yet".
 
 import (
+	"fmt"
+	"go/types"
+
 	"golang.org/x/tools/go/ssa"
 )
 
+func (e *Engine) chanContent(st *State, ch *ChanVal) *ChanContent {
+	return st.heap[ch.obj].val.(*ChanContent)
+}
+
+func (e *Engine) setChan(st *State, ch *ChanVal, c *ChanContent) {
+	o := *st.heap[ch.obj]
+	o.val = c
+	st.heap[ch.obj] = &o
+}
+
+func (e *Engine) heldLocks(st *State) []string {
+	var out []string
+	for k, n := range st.locks {
+		if n > 0 {
+			out = append(out, k)
+		}
+	}
+	return out
+}
+
+// blocked ends the path: the goroutine waits forever.
+func (e *Engine) blocked(st *State, what string, ins ssa.Instruction) int {
+	if held := e.heldLocks(st); len(held) > 0 {
+		o := e.obl("blocked-holding-lock@"+siteFn(ins), "lock")
+		o.Checked++
+		e.reportViolation(st, o, tTrue, e.modelOf(st), site(ins), "goroutine blocks forever ("+what+") while holding a mutex")
+	}
+	e.res.Cuts["blocked:"+what+"@"+siteFn(ins)]++
+	st.path = append(st.path, "blocked:"+what)
+	st.finished = true
+	st.blockedAt = site(ins)
+	// the harness does not continue: unwind nothing, just stop
+	return stDone
+}
+
+// havocObserve decides whether a havoc channel is closed at this observation.
+func (e *Engine) havocObserve(st *State, ch *ChanVal, ins ssa.Instruction) (closed bool, ok bool) {
+	c := e.chanContent(st, ch)
+	if c.closed {
+		return true, true
+	}
+	e.nondetSeq++
+	b := Var(fmt.Sprintf("hv%d", e.nondetSeq), 0)
+	st.nondets = append(st.nondets, NondetRec{Kind: "bool", term: b})
+	taken, alive := e.branch(st, b, ins, "havoc-chan")
+	if !alive {
+		return false, false
+	}
+	if taken {
+		nc := *c
+		nc.closed = true
+		e.setChan(st, ch, &nc)
+	}
+	return taken, true
+}
+
 func (e *Engine) doRecv(st *State, f *Frame, x *ssa.UnOp, ch *ChanVal) int {
-	unsupp("channel receive")
-	return stDone
+	elem := x.X.Type().Underlying().(*types.Chan).Elem()
+	set := func(v Value, ok bool) int {
+		if x.CommaOk {
+			f.regs[x] = &TupleVal{e: []Value{v, Bool(ok)}}
+		} else {
+			f.regs[x] = v
+		}
+		f.ip++
+		return stCont
+	}
+	if ch.obj == 0 {
+		return e.blocked(st, "receive from nil channel", x)
+	}
+	c := e.chanContent(st, ch)
+	if c.havoc && !c.closed {
+		// blocking receive on an asynchronous event: it eventually fires or never does
+		closed, ok := e.havocObserve(st, ch, x)
+		if !ok {
+			return stDone
+		}
+		if !closed {
+			return e.blocked(st, "receive on channel that is never signalled", x)
+		}
+		return set(zeroValue(elem), false)
+	}
+	if len(c.buf) > 0 {
+		nc := *c
+		v := c.buf[0]
+		nc.buf = append([]Value(nil), c.buf[1:]...)
+		e.setChan(st, ch, &nc)
+		return set(v, true)
+	}
+	if c.closed {
+		return set(zeroValue(elem), false)
+	}
+	return e.blocked(st, "receive on open empty channel", x)
 }
+
 func (e *Engine) doSend(st *State, f *Frame, x *ssa.Send) int {
-	unsupp("channel send")
-	return stDone
+	ch := e.eval(st, f, x.Chan).(*ChanVal)
+	if ch.obj == 0 {
+		return e.blocked(st, "send on nil channel", x)
+	}
+	c := e.chanContent(st, ch)
+	if c.closed {
+		o := e.obl("send-on-closed@"+siteFn(x), "panic")
+		o.Checked++
+		e.reportViolation(st, o, tTrue, e.modelOf(st), site(x), "send on closed channel")
+		return stDone
+	}
+	if len(c.buf) < c.capN {
+		nc := *c
+		nc.buf = append(append([]Value(nil), c.buf...), e.eval(st, f, x.X))
+		e.setChan(st, ch, &nc)
+		f.ip++
+		return stCont
+	}
+	return e.blocked(st, "send with no receiver", x)
 }
-func (e *Engine) doSelect(st *State, f *Frame, x *ssa.Select) int {
-	unsupp("select")
-	return stDone
-}
+
 func (e *Engine) doClose(st *State, f *Frame, ch *ChanVal, ins ssa.Instruction, ret func(Value) int) int {
-	unsupp("close")
-	return stDone
+	if ch.obj == 0 {
+		o := e.obl("close-nil-chan@"+siteFn(ins), "panic")
+		o.Checked++
+		e.reportViolation(st, o, tTrue, e.modelOf(st), site(ins), "close of nil channel")
+		return stDone
+	}
+	c := e.chanContent(st, ch)
+	if c.closed && !c.havoc {
+		o := e.obl("close-closed-chan@"+siteFn(ins), "panic")
+		o.Checked++
+		e.reportViolation(st, o, tTrue, e.modelOf(st), site(ins), "close of closed channel")
+		return stDone
+	}
+	nc := *c
+	nc.closed = true
+	e.setChan(st, ch, &nc)
+	return ret(nil)
 }
+
+func (e *Engine) doSelect(st *State, f *Frame, x *ssa.Select) int {
+	tt := x.Type().(*types.Tuple)
+	mk := func(idx int, recvIdx int, v Value, ok bool) int {
+		vals := make([]Value, tt.Len())
+		vals[0] = c64(int64(idx))
+		vals[1] = Bool(ok)
+		k := 2
+		for i, s := range x.States {
+			if s.Dir == types.RecvOnly {
+				if i == recvIdx && v != nil {
+					vals[k] = v
+				} else {
+					vals[k] = zeroValue(tt.At(k).Type())
+				}
+				k++
+			}
+		}
+		f.regs[x] = &TupleVal{e: vals}
+		f.ip++
+		return stCont
+	}
+	// first: havoc channels may fire now (one at a time, in order)
+	for i, s := range x.States {
+		if s.Dir != types.RecvOnly {
+			continue
+		}
+		ch := e.eval(st, f, s.Chan).(*ChanVal)
+		if ch.obj == 0 {
+			continue
+		}
+		c := e.chanContent(st, ch)
+		if c.havoc && !c.closed {
+			closed, ok := e.havocObserve(st, ch, x)
+			if !ok {
+				return stDone
+			}
+			if closed {
+				return mk(i, i, nil, false)
+			}
+		}
+	}
+	// ready cases
+	type rc struct {
+		i    int
+		recv bool
+	}
+	var ready []rc
+	for i, s := range x.States {
+		ch := e.eval(st, f, s.Chan).(*ChanVal)
+		if ch.obj == 0 {
+			continue
+		}
+		c := e.chanContent(st, ch)
+		if s.Dir == types.RecvOnly {
+			if len(c.buf) > 0 || c.closed {
+				ready = append(ready, rc{i, true})
+			}
+		} else {
+			if c.closed || len(c.buf) < c.capN {
+				ready = append(ready, rc{i, false})
+			}
+		}
+	}
+	if len(ready) == 0 {
+		if !x.Blocking {
+			return mk(-1, -1, nil, false)
+		}
+		return e.blocked(st, "select with no ready case", x)
+	}
+	// nondeterministic choice among the ready cases
+	pick := 0
+	if len(ready) > 1 {
+		e.nondetSeq++
+		sel := Var(fmt.Sprintf("sel%d", e.nondetSeq), 8)
+		st.nondets = append(st.nondets, NondetRec{Kind: "u8", term: sel})
+		st.assume(Ult(sel, BV(uint64(len(ready)), 8)))
+		v, ok := e.concretize(st, sel, "select-case")
+		if !ok {
+			return stDone
+		}
+		pick = int(v)
+	}
+	r := ready[pick]
+	s := x.States[r.i]
+	ch := e.eval(st, f, s.Chan).(*ChanVal)
+	c := e.chanContent(st, ch)
+	if r.recv {
+		if len(c.buf) > 0 {
+			nc := *c
+			v := c.buf[0]
+			nc.buf = append([]Value(nil), c.buf[1:]...)
+			e.setChan(st, ch, &nc)
+			return mk(r.i, r.i, v, true)
+		}
+		return mk(r.i, r.i, nil, false)
+	}
+	if c.closed {
+		o := e.obl("send-on-closed@"+siteFn(x), "panic")
+		o.Checked++
+		e.reportViolation(st, o, tTrue, e.modelOf(st), site(x), "send on closed channel")
+		return stDone
+	}
+	nc := *c
+	nc.buf = append(append([]Value(nil), c.buf...), e.eval(st, f, s.Send))
+	e.setChan(st, ch, &nc)
+	return mk(r.i, -1, nil, false)
+}
+
 func (e *Engine) parYield(st *State, what string) (int, bool) { return 0, false }
 func (e *Engine) parStart(st *State, f *Frame, args []Value, ins ssa.Instruction, ret func(Value) int) int {
 	unsupp("vPar")
